@@ -177,10 +177,12 @@ def tree_of(check, custom=None):
         return [5, [tree_of(r, custom) for r in check.rules]]
     if isinstance(check, _checks.Check):
         name = t.__name__
+        def txt(x):     # kind / match are text in the unchanged code; anything else is shown, not crashed on
+            return x if isinstance(x, str) else '<%s %r>' % (type(x).__name__, x)
         if name in CLS_CODE:
-            return [2, CLS_CODE[name], S(check.kind), S(check.match)]
+            return [2, CLS_CODE[name], S(txt(check.kind)), S(txt(check.match))]
         if custom and name in custom:
-            return [2, 10 + custom[name], S(check.kind), S(check.match)]
+            return [2, 10 + custom[name], S(txt(check.kind)), S(txt(check.match))]
     return ['?', repr(check)]
 
 
